@@ -156,3 +156,29 @@ Proof.
   - rewrite nth_error_map, Hx. reflexivity.
   - rewrite nth_error_map, Hy. reflexivity.
 Qed.
+
+Theorem rank_values_rev_eq xs i j x y ri rj :
+  nth_error xs i = Some x -> nth_error xs j = Some y ->
+  nth_error (rank_values true xs) i = Some ri -> nth_error (rank_values true xs) j = Some rj ->
+  ((x == y)%Q <-> ri = rj).
+Proof.
+  intros Hx Hy Hri Hrj. unfold rank_values in *.
+  rewrite <- (dense_rank_Q_eq (map Qopp xs) i j (-x) (-y) ri rj); auto.
+  - split; intros H; [rewrite H; reflexivity|].
+    rewrite <- (Qopp_involutive x), <- (Qopp_involutive y), H. reflexivity.
+  - rewrite nth_error_map, Hx. reflexivity.
+  - rewrite nth_error_map, Hy. reflexivity.
+Qed.
+
+Lemma rank_values_length rev xs : length (rank_values rev xs) = length xs.
+Proof. unfold rank_values. destruct rev; rewrite dense_rank_Q_length, ?map_length; reflexivity. Qed.
+
+Definition rank_count (rev : bool) (xs : list Q) : nat :=
+  if rev then distinct_count (map Qopp xs) else distinct_count xs.
+
+Theorem rank_values_image rev xs r :
+  In r (rank_values rev xs) <-> (1 <= r <= rank_count rev xs)%nat.
+Proof.
+  unfold rank_values, rank_count. destruct rev; split;
+    auto using dense_rank_Q_range, dense_rank_Q_nogaps.
+Qed.
